@@ -117,7 +117,7 @@ def rule_cap_zero_sql(program, ctx):
                 if mentions_self:
                     ctx.ok(ridc, st, f"{var} accumulates over the filters")
                 else:
-                    ctx.bad(finding_at(P, ridc, st, f"`{var}` is re-assigned per filter (last filter wins): in a REQ with several filters an earlier filter is truncated to the last "
+                    ctx.bad(finding_at(P, ridc, st, label="REQ-wide LIMIT is last-filter-wins", message=f"`{var}` is re-assigned per filter (last filter wins): in a REQ with several filters an earlier filter is truncated to the last "
                                        "filter's limit, e.g. [{kinds:[1],limit:5},{kinds:[7],limit:1}] returns one event in total"))
             # zero
             guard = next((a for a in ancestors(st) if isinstance(a, ast.If)), None)
@@ -171,6 +171,12 @@ def rule_cap_zero_sql(program, ctx):
             exprs = [a]
             if isinstance(a, ast.Name):
                 exprs = [s.value for s in stores_of(pl, a.id) if isinstance(s, ast.Assign)]
+            def leaves(e):
+                if isinstance(e, ast.IfExp):
+                    return leaves(e.body) + leaves(e.orelse)
+                return [e]
+
+            exprs = [l for e in exprs for l in leaves(e)]
             for e in exprs:
                 if dotted(e) in ("default_limit", "Config.max_limit") or _is_capped(e, {"Config.max_limit", "default_limit"}):
                     ctx.ok(rid, c, f"plan limit <- {ast.unparse(e)}")
@@ -230,7 +236,7 @@ def rule_order(program, ctx):
                 src = dotted(s.value.args[0])
                 later = [y for y in walk_no_nested(fn) if isinstance(y, (ast.YieldFrom, ast.For)) and any(isinstance(t, ast.Name) and t.id in [x.id for x in s.targets if isinstance(x, ast.Name)] for t in ast.walk(y.value if isinstance(y, ast.YieldFrom) else y.iter))]
                 if later and "scanner" in src or src == "scanner":
-                    ctx.bad(finding_at(P, rid, s, f"{qual_of(fn)}: index hits pass through `{ast.unparse(s.value)}` before being yielded: the newest-first order of the cursor walk is destroyed, "
+                    ctx.bad(finding_at(P, rid, s, label="index hits pass through a set before the cut-off", message=f"{qual_of(fn)}: index hits pass through `{ast.unparse(s.value)}` before being yielded: the newest-first order of the cursor walk is destroyed, "
                                        "so after the count == limit cut-off the survivors are not the newest matching events"))
     ctx.ok(rid, program.func("nostr_relay.storage.kv:Index.scanner"), "Index.scanner walks with cursor.prev (newest first) and yields directly", nontrivial=False)
 
